@@ -73,14 +73,6 @@ def ExecsSim (l l' : List Exec) : Prop :=
 /-- the longest timeout a deadline timer is armed with (`MAX_DEADLINE_TIMEOUT`), in nanoseconds -/
 def clampNs : Nat := Gen.serverTimerClampSecs * 1000000000
 
-/-- **The clamp has run out.**  A request read at clock `t0` with deadline `d` more than the clamp
-away had its timer armed with the clamped timeout, and that timeout has elapsed by `t`
-(`t0 + clamp ≤ t`, although possibly `t < d`). -/
-def Clamped (t0 d t : Nat) : Prop := Gen.serverTimerClampSecs ≠ 0 ∧ t0 + clampNs < d ∧ t0 + clampNs ≤ t
-
-theorem Clamped.mono {t0 d t t' : Nat} (h : Clamped t0 d t) (hle : t ≤ t') : Clamped t0 d t' :=
-  ⟨h.1, h.2.1, Nat.le_trans h.2.2 hle⟩
-
 /-- the armed timeout is the requested one, or (only if the source clamps) the clamp, which is shorter -/
 theorem clampTimeout_cases (t : Nat) :
     clampTimeout t = t ∨ (Gen.serverTimerClampSecs ≠ 0 ∧ clampNs < t ∧ clampTimeout t = clampNs) := by
@@ -94,6 +86,14 @@ theorem clampTimeout_cases (t : Nat) :
     by_cases hle : t ≤ k * 1000000000
     · left; exact Nat.min_eq_left hle
     · right; exact ⟨hk, by omega, Nat.min_eq_right (by omega)⟩
+
+theorem ceilMs_ge' (x : Nat) : x ≤ ceilMs x * nsPerMs := by
+  unfold ceilMs nsPerMs; omega
+
+theorem clampTimeout_le_self (t : Nat) : clampTimeout t ≤ t := by
+  rcases clampTimeout_cases t with h | ⟨_, hlt, h⟩ <;> rw [h]
+  · exact Nat.le_refl _
+  · exact Nat.le_of_lt hlt
 
 theorem clampTimeout_le (hf : Gen.serverTimerClampSecs ≠ 0) (t : Nat) : clampTimeout t ≤ clampNs := by
   rcases clampTimeout_cases t with h | ⟨_, _, h⟩
@@ -146,10 +146,7 @@ theorem insert_panic_late (hf : ClampFits) (q : DelayQ) (now t val : Nat)
   generalize Gen.serverTimerClampSecs = S at ht h2
   omega
 
-/-- the clock at which each execution (by rid) was created; not-yet-created rids carry the new clock -/
-def reborn (born : Nat → Nat) (n t : Nat) : Nat → Nat := fun rid => if rid < n then born rid else t
-
-structure TInv (now : Nat) (born : Nat → Nat) (s : St) : Prop where
+structure TInv (now : Nat) (s : St) : Prop where
   wf : DelayQ.KeysOk s.timers
   sound : DelayQ.Sound s.timers now
   ids : (s.inflight.map (·.id)).Nodup
@@ -157,38 +154,29 @@ structure TInv (now : Nat) (born : Nat → Nat) (s : St) : Prop where
   bwd : ∀ c ∈ s.timers.cores, ∃ en ∈ s.inflight, en.timerKey = c.1 ∧ en.id = c.2.1
   ridLt : ∀ en ∈ s.inflight, en.rid < s.execs.length
   execRid : ∀ ex ∈ s.execs, ex.rid < s.execs.length
-  /-- a rid not handed out yet will be created at the current clock -/
-  fresh : ∀ rid, s.execs.length ≤ rid → born rid = now
-  /-- the timer of a tracked request fires no earlier than its deadline — or than the clamp -/
+  /-- the timer of a tracked request together with what is still to be armed (`deadline_remainder`)
+  reaches the deadline: the request expires (timer fired with nothing left to arm) no earlier than it -/
   dl : ∀ en ∈ s.inflight, ∀ c ∈ s.timers.cores, c.1 = en.timerKey → ∀ ex ∈ s.execs, ex.rid = en.rid →
-    (ex.deadline ≤ c.2.2 * nsPerMs ∨ Clamped (born ex.rid) ex.deadline (c.2.2 * nsPerMs)) ∧ ex.id = en.id
+    ex.deadline ≤ c.2.2 * nsPerMs + en.remainder ∧ ex.id = en.id
 
-/-- the clock moves on: rids not handed out yet are re-dated -/
-theorem TInv.mono {now now' : Nat} {born : Nat → Nat} {s : St} (h : TInv now born s) (hle : now ≤ now') :
-    TInv now' (reborn born s.execs.length now') s := by
-  refine ⟨h.wf, h.sound.mono hle, h.ids, h.fwd, h.bwd, h.ridLt, h.execRid, ?_, ?_⟩
-  · intro rid hr; unfold reborn; rw [if_neg (by omega)]
-  · intro en hen c hc hk ex hex hr
-    have : reborn born s.execs.length now' ex.rid = born ex.rid := by
-      unfold reborn; rw [if_pos (h.execRid ex hex)]
-    rw [this]; exact h.dl en hen c hc hk ex hex hr
+theorem TInv.mono {now now' : Nat} {s : St} (h : TInv now s) (hle : now ≤ now') : TInv now' s :=
+  { h with sound := h.sound.mono hle }
 
 /-- `TInv` only looks at `inflight`, `timers`, `execs` (up to `ExecsSim`). -/
-theorem TInv.of_sim {now : Nat} {born : Nat → Nat} {s s' : St} (h : TInv now born s) (hi : s'.inflight = s.inflight) (ht : s'.timers = s.timers)
-    (he : ExecsSim s.execs s'.execs) : TInv now born s' := by
-  refine ⟨ht ▸ h.wf, ht ▸ h.sound, hi ▸ h.ids, ?_, ?_, ?_, ?_, ?_, ?_⟩
+theorem TInv.of_sim {now : Nat} {s s' : St} (h : TInv now s) (hi : s'.inflight = s.inflight) (ht : s'.timers = s.timers)
+    (he : ExecsSim s.execs s'.execs) : TInv now s' := by
+  refine ⟨ht ▸ h.wf, ht ▸ h.sound, hi ▸ h.ids, ?_, ?_, ?_, ?_, ?_⟩
   · rw [hi, ht]; exact h.fwd
   · rw [hi, ht]; exact h.bwd
   · rw [hi, he.1]; exact h.ridLt
   · intro ex' hex'
     obtain ⟨ex, hex, hr, _, _⟩ := he.2 ex' hex'
     rw [he.1, hr]; exact h.execRid ex hex
-  · rw [he.1]; exact h.fresh
   · rw [hi, ht]
     intro en hen c hc hk ex' hex' hr'
     obtain ⟨ex, hex, hr, hid, hd⟩ := he.2 ex' hex'
     have := h.dl en hen c hc hk ex hex (hr ▸ hr')
-    rw [hid, hd, hr]; exact this
+    rw [hid, hd]; exact this
 
 theorem ExecsSim.refl (l : List Exec) : ExecsSim l l := ⟨rfl, fun ex h => ⟨ex, h, rfl, rfl, rfl⟩⟩
 
@@ -211,13 +199,13 @@ theorem updExec_sim (s : St) (r : Nat) (f : Exec → Exec)
   exact ExecsSim.map _ _ (fun e => by split; exact hf e; exact ⟨rfl, rfl, rfl⟩)
 
 /-- removing one tracked entry (all entries with its id) together with its timer -/
-theorem TInv.removeCore {now : Nat} {born : Nat → Nat} {s s' : St} (h : TInv now born s) {en : SEntry} (hen : en ∈ s.inflight)
+theorem TInv.removeCore {now : Nat} {s s' : St} (h : TInv now s) {en : SEntry} (hen : en ∈ s.inflight)
     (hwf : DelayQ.KeysOk s'.timers) (hsound : DelayQ.Sound s'.timers now)
     (hc : ∀ c, c ∈ s'.timers.cores ↔ c ∈ s.timers.cores ∧ c.1 ≠ en.timerKey)
-    (hi : s'.inflight = s.inflight.filter (·.id != en.id)) (he : ExecsSim s.execs s'.execs) : TInv now born s' := by
+    (hi : s'.inflight = s.inflight.filter (·.id != en.id)) (he : ExecsSim s.execs s'.execs) : TInv now s' := by
   have hmem : ∀ e, e ∈ s'.inflight ↔ e ∈ s.inflight ∧ e.id ≠ en.id := by
     intro e; rw [hi]; simp
-  refine ⟨hwf, hsound, ?_, ?_, ?_, ?_, ?_, by rw [he.1]; exact h.fresh, ?_⟩
+  refine ⟨hwf, hsound, ?_, ?_, ?_, ?_, ?_, ?_⟩
   · rw [hi]
     exact List.Nodup.sublist (List.Sublist.map _ List.filter_sublist) h.ids
   · intro e he'
@@ -243,10 +231,10 @@ theorem TInv.removeCore {now : Nat} {born : Nat → Nat} {s s' : St} (h : TInv n
   · intro e he' c hcm hk ex' hex' hr'
     obtain ⟨ex, hex, hr, hid, hd⟩ := he.2 ex' hex'
     have := h.dl e ((hmem e).mp he').1 c ((hc c).mp hcm).1 hk ex hex (hr ▸ hr')
-    rw [hid, hd, hr]; exact this
+    rw [hid, hd]; exact this
 
 /-- the timer of a tracked entry is in the queue, so `removeTimer` cannot fail -/
-theorem TInv.remove_some {now : Nat} {born : Nat → Nat} {s : St} (h : TInv now born s) {en : SEntry} (hen : en ∈ s.inflight) :
+theorem TInv.remove_some {now : Nat} {s : St} (h : TInv now s) {en : SEntry} (hen : en ∈ s.inflight) :
     ∃ q' w, s.timers.remove en.timerKey = some (q', w) := by
   cases hr : s.timers.remove en.timerKey with
   | some p => exact ⟨p.1, p.2, rfl⟩
@@ -255,7 +243,7 @@ theorem TInv.remove_some {now : Nat} {born : Nat → Nat} {s : St} (h : TInv now
     obtain ⟨c, hc, hk, _⟩ := h.fwd en hen
     exact absurd ((DelayQ.mem_keys_iff _ _).mpr ⟨c, hc, hk⟩) this
 
-theorem TInv.removeReq {now : Nat} {born : Nat → Nat} {s : St} (h : TInv now born s) (id : Nat) : TInv now born (removeRequest s id).1 := by
+theorem TInv.removeReq {now : Nat} {s : St} (h : TInv now s) (id : Nat) : TInv now (removeRequest s id).1 := by
   unfold Server.removeRequest
   split
   · exact h
@@ -265,7 +253,7 @@ theorem TInv.removeReq {now : Nat} {born : Nat → Nat} {s : St} (h : TInv now b
     unfold removeTimer
     simp only [hr]
     subst hid
-    have hcore : TInv now born { s with inflight := s.inflight.filter (·.id != e.id), timers := q' } :=
+    have hcore : TInv now { s with inflight := s.inflight.filter (·.id != e.id), timers := q' } :=
       h.removeCore hen (DelayQ.remove_WF hr h.wf) (DelayQ.remove_Sound hr h.sound)
         (DelayQ.remove_some hr).2 rfl (ExecsSim.refl _)
     split
@@ -332,7 +320,7 @@ theorem abortExec_ab (s : St) (r : Nat) : ExecsAb (some r) s.execs (abortExec s 
     · exact ExecsAb.trans_none hu (wakeExec_ab _ r)
     · exact hu
 
-theorem TInv.cancelReq {now : Nat} {born : Nat → Nat} {s : St} (h : TInv now born s) (id : Nat) : TInv now born (cancelRequest s id).1 := by
+theorem TInv.cancelReq {now : Nat} {s : St} (h : TInv now s) (id : Nat) : TInv now (cancelRequest s id).1 := by
   unfold cancelRequest
   split
   · exact h
@@ -342,7 +330,7 @@ theorem TInv.cancelReq {now : Nat} {born : Nat → Nat} {s : St} (h : TInv now b
     unfold removeTimer
     simp only [abortExec_timers, hr]
     subst hid
-    have hcore : TInv now born { abortExec { s with inflight := s.inflight.filter (·.id != e.id) } e.rid with timers := q' } := by
+    have hcore : TInv now { abortExec { s with inflight := s.inflight.filter (·.id != e.id) } e.rid with timers := q' } := by
       refine h.removeCore hen (DelayQ.remove_WF hr h.wf) (DelayQ.remove_Sound hr h.sound)
         (DelayQ.remove_some hr).2 (by simp) ?_
       exact (abortExec_ab { s with inflight := s.inflight.filter (·.id != e.id) } e.rid).sim
@@ -362,78 +350,222 @@ theorem cancelRequest_ab (s : St) (id : Nat) :
     simp only [removeTimer_execs]
     exact abortExec_ab { s with inflight := s.inflight.filter (·.id != id) } e.rid
 
-theorem TInv.expire {now : Nat} {born : Nat → Nat} {s : St} (h : TInv now born s) : TInv now born (pollExpired s now).1 := by
-  unfold pollExpired
-  split
-  · exact h
-  · rcases hp : s.timers.pollExpired now with ⟨q, r⟩
+/-- what a fired timer tells in a state satisfying the invariant: it belongs to a tracked entry, which
+is the one `findEntry` finds for its value -/
+theorem TInv.popped {now : Nat} {s : St} (h : TInv now s) {q : DelayQ} {e : DqEntry}
+    (hp : s.timers.pollExpired now = (q, .expired e)) :
+    ∃ en, en ∈ s.inflight ∧ en.timerKey = e.key ∧ en.id = e.val ∧
+      (∀ en', findEntry { s with timers := q } e.val = some en' → en' = en) ∧
+      findEntry { s with timers := q } e.val ≠ none := by
+  obtain ⟨hcore, hcs⟩ := DelayQ.pollExpired_expired hp h.wf
+  obtain ⟨en, hen, hk, hv⟩ := h.bwd _ hcore
+  have hv' : en.id = e.val := hv
+  refine ⟨en, hen, hk, hv', ?_, ?_⟩
+  · intro en' hf
+    obtain ⟨hen', hid'⟩ := findEntry_some hf
+    exact eq_of_map_nodup (·.id) h.ids hen' hen (hid'.trans hv'.symm)
+  · intro hfe
+    exact absurd hv' (findEntry_none hfe en hen)
+
+/-- **Re-arming keeps the invariant**: the fired timer of `en` is replaced by a fresh one, armed at the
+current clock (which the fired one had reached) with a part of what was left of the time until the
+deadline; the entry pays that part out of its remainder. -/
+theorem TInv.rearm {now : Nat} {s : St} (h : TInv now s) {q : DelayQ} {e : DqEntry} {en : SEntry} {s2 : St}
+    (hp : s.timers.pollExpired now = (q, .expired e)) (hen : en ∈ s.inflight) (hk : en.timerKey = e.key)
+    (hv : en.id = e.val) (hr : Server.rearm { s with timers := q } now en = some s2) : TInv now s2 := by
+  have hwfq := DelayQ.pollExpired_WF hp h.wf
+  have hsq := DelayQ.pollExpired_Sound hp h.sound
+  obtain ⟨hcore, hcs⟩ := DelayQ.pollExpired_expired hp h.wf
+  have hne := DelayQ.pollExpired_not_early hp h.sound
+  obtain ⟨q', key, w, hi, rfl⟩ := rearm_some hr
+  simp only at hi
+  obtain ⟨hkey, hnk, hcs'⟩ := DelayQ.insert_ok hi
+  have hwf := DelayQ.insert_WF hi hwfq
+  have hs := DelayQ.insert_Sound hi hsq
+  have hfresh : ∀ c ∈ q.cores, c.1 ≠ key := fun c hc hck => by
+    have := DelayQ.cores_key_lt hwfq hc; omega
+  have hexecs : (if w = true then wakeServer { s with timers := q } else { s with timers := q }).execs = s.execs := by
+    cases w <;> simp
+  -- membership in the re-keyed table
+  have hmem : ∀ x', x' ∈ s.inflight.map (rearmUpd en.id key) ↔ ∃ x ∈ s.inflight, x' = rearmUpd en.id key x := by
+    intro x'; simp only [List.mem_map]; constructor
+    · rintro ⟨x, hx, rfl⟩; exact ⟨x, hx, rfl⟩
+    · rintro ⟨x, hx, rfl⟩; exact ⟨x, hx, rfl⟩
+  have hupd_en : rearmUpd en.id key en = { en with timerKey := key, remainder := en.remainder - clampTimeout en.remainder } := by
+    unfold rearmUpd; rw [if_pos (by simp)]
+  have hother : ∀ x ∈ s.inflight, x ≠ en → rearmUpd en.id key x = x := by
+    intro x hx hxe
+    exact rearmUpd_ne (fun hid => hxe (eq_of_map_nodup (·.id) h.ids hx hen hid))
+  -- the old core of another entry survives the pop and the insert
+  have hkeep : ∀ x ∈ s.inflight, x ≠ en → ∀ c ∈ s.timers.cores, c.1 = x.timerKey → c ∈ q.cores := by
+    intro x hx hxe c hc hck
+    refine (hcs c).mpr ⟨hc, fun hce => hxe ?_⟩
+    obtain ⟨c0, hc0, hk0, hv0⟩ := h.fwd en hen
+    have hcc : c = c0 := DelayQ.cores_key_unique h.wf hc hc0 (by rw [hce, hk0, hk])
+    obtain ⟨cx, hcx, hkx, hvx⟩ := h.fwd x hx
+    have hcc' : c = cx := DelayQ.cores_key_unique h.wf hc hcx (by rw [hck, hkx])
+    exact eq_of_map_nodup (·.id) h.ids hx hen (by rw [← hvx, ← hcc', hcc, hv0])
+  refine ⟨hwf, hs, ?_, ?_, ?_, ?_, ?_, ?_⟩
+  · show ((s.inflight.map (rearmUpd en.id key)).map (·.id)).Nodup
+    have : (s.inflight.map (rearmUpd en.id key)).map (·.id) = s.inflight.map (·.id) := by
+      rw [List.map_map]; apply List.map_congr_left; intro x _; simp
+    rw [this]; exact h.ids
+  · intro x' hx'
+    obtain ⟨x, hx, rfl⟩ := (hmem x').mp hx'
+    by_cases hxe : x = en
+    · subst hxe
+      rw [hupd_en]
+      exact ⟨_, (hcs' _).mpr (Or.inr rfl), rfl, rfl⟩
+    · rw [hother x hx hxe]
+      obtain ⟨c, hc, a, b⟩ := h.fwd x hx
+      exact ⟨c, (hcs' c).mpr (Or.inl (hkeep x hx hxe c hc a)), a, b⟩
+  · intro c hc
+    rcases (hcs' c).mp hc with hc | hc
+    · obtain ⟨hcold, hcne⟩ := (hcs c).mp hc
+      obtain ⟨x, hx, a, b⟩ := h.bwd c hcold
+      have hxe : x ≠ en := fun hxe => hcne (by rw [← a, hxe, hk])
+      exact ⟨x, (hmem x).mpr ⟨x, hx, (hother x hx hxe).symm⟩, a, b⟩
+    · subst hc
+      exact ⟨rearmUpd en.id key en, (hmem _).mpr ⟨en, hen, rfl⟩, by rw [hupd_en], by rw [hupd_en]⟩
+  · intro x' hx'
+    obtain ⟨x, hx, rfl⟩ := (hmem x').mp hx'
+    rw [hexecs, rearmUpd_rid]; exact h.ridLt x hx
+  · rw [hexecs]; exact h.execRid
+  · rw [hexecs]
+    intro x' hx' c hc hck ex hex hrid
+    obtain ⟨x, hx, rfl⟩ := (hmem x').mp hx'
+    by_cases hxe : x = en
+    · subst hxe
+      rw [hupd_en] at hck hrid ⊢
+      simp only at hck hrid ⊢
+      have hcnew : c = (key, x.id, max (ceilMs (now + clampTimeout x.remainder)) q.wheelElapsed) := by
+        rcases (hcs' c).mp hc with hc | hc
+        · exact absurd hck (hfresh c hc)
+        · exact hc
+      subst hcnew
+      have hold := h.dl x hen _ hcore hk.symm ex hex hrid
+      refine ⟨?_, hold.2⟩
+      have hold1 : ex.deadline ≤ e.whenMs * nsPerMs + x.remainder := hold.1
+      show ex.deadline ≤ max (ceilMs (now + clampTimeout x.remainder)) q.wheelElapsed * nsPerMs +
+        (x.remainder - clampTimeout x.remainder)
+      have h1 := ceilMs_ge' (now + clampTimeout x.remainder)
+      have h2 : ceilMs (now + clampTimeout x.remainder) * nsPerMs ≤
+          max (ceilMs (now + clampTimeout x.remainder)) q.wheelElapsed * nsPerMs :=
+        Nat.mul_le_mul_right _ (Nat.le_max_left _ _)
+      have h3 := clampTimeout_le_self x.remainder
+      omega
+    · rw [hother x hx hxe] at hck hrid ⊢
+      have hcold : c ∈ s.timers.cores := by
+        rcases (hcs' c).mp hc with hc | hc
+        · exact ((hcs c).mp hc).1
+        · subst hc
+          obtain ⟨c0, hc0, hk0, _⟩ := h.fwd x hx
+          exact absurd (hk0.trans hck.symm) (hfresh c0 (hkeep x hx hxe c0 hc0 hk0))
+      exact h.dl x hx c hcold hck ex hex hrid
+
+theorem TInv.expireStep {now : Nat} {s : St} (h : TInv now s) : TInv now (Server.expireStep s now).1 := by
+  have hs := expireStep_shape s now
+  revert hs; generalize Server.expireStep s now = p; intro hs
+  obtain ⟨s', r⟩ := p
+  dsimp only at hs ⊢
+  have idle : ∀ q r, s.timers.pollExpired now = (q, r) → (∀ e, r ≠ .expired e) → TInv now { s with timers := q } := by
+    intro q r hp hr
     have hwf := DelayQ.pollExpired_WF hp h.wf
     have hs := DelayQ.pollExpired_Sound hp h.sound
-    cases r with
-    | expired e =>
-      simp only
-      obtain ⟨hcore, hcs⟩ := DelayQ.pollExpired_expired hp h.wf
-      obtain ⟨en, hen, hk, hv⟩ := h.bwd _ hcore
-      have hk' : en.timerKey = e.key := hk
-      have hv' : en.id = e.val := hv
-      have hf : ∃ en', findEntry { s with timers := q } e.val = some en' := by
-        cases hfe : findEntry { s with timers := q } e.val with
-        | some en' => exact ⟨en', rfl⟩
-        | none => exact absurd hv' (findEntry_none hfe en hen)
-      obtain ⟨en', hf⟩ := hf
-      rw [hf]
-      obtain ⟨hen', hid'⟩ := findEntry_some hf
-      have : en' = en := eq_of_map_nodup (·.id) h.ids hen' hen (hid'.trans hv'.symm)
-      subst this
-      simp only
-      refine h.removeCore hen (by simpa using hwf) (by simpa using hs) ?_ (by simp [hv']) ?_
-      · intro c; simp only [abortExec_timers]; rw [hcs c, hk']
-      · exact (abortExec_ab { s with inflight := s.inflight.filter (·.id != e.val), timers := q } en'.rid).sim
-    | none =>
-      have hcs := DelayQ.pollExpired_other hp h.wf (by intro e h; cases h)
-      exact ⟨hwf, hs, h.ids, fun en hen => by obtain ⟨c, hc, a, b⟩ := h.fwd en hen; exact ⟨c, (hcs c).mpr hc, a, b⟩,
-        fun c hc => h.bwd c ((hcs c).mp hc), h.ridLt, h.execRid, h.fresh,
-        fun en hen c hc => h.dl en hen c ((hcs c).mp hc)⟩
-    | pending =>
-      have hcs := DelayQ.pollExpired_other hp h.wf (by intro e h; cases h)
-      exact ⟨hwf, hs, h.ids, fun en hen => by obtain ⟨c, hc, a, b⟩ := h.fwd en hen; exact ⟨c, (hcs c).mpr hc, a, b⟩,
-        fun c hc => h.bwd c ((hcs c).mp hc), h.ridLt, h.execRid, h.fresh,
-        fun en hen c hc => h.dl en hen c ((hcs c).mp hc)⟩
+    have hcs := DelayQ.pollExpired_other hp h.wf hr
+    exact ⟨hwf, hs, h.ids, fun en hen => by obtain ⟨c, hc, a, b⟩ := h.fwd en hen; exact ⟨c, (hcs c).mpr hc, a, b⟩,
+      fun c hc => h.bwd c ((hcs c).mp hc), h.ridLt, h.execRid,
+      fun en hen c hc => h.dl en hen c ((hcs c).mp hc)⟩
+  cases hs with
+  | idleNone q hp => exact idle q _ hp (by intro e h; cases h)
+  | idlePending q hp => exact idle q _ hp (by intro e h; cases h)
+  | orphan q e hp hf =>
+    obtain ⟨en, _, _, _, _, hne⟩ := h.popped hp
+    exact absurd hf hne
+  | abort q e en' hp hf h0 =>
+    obtain ⟨en, hen, hk, hv, huniq, _⟩ := h.popped hp
+    have := huniq en' hf; subst this
+    have hwf := DelayQ.pollExpired_WF hp h.wf
+    have hs := DelayQ.pollExpired_Sound hp h.sound
+    obtain ⟨hcore, hcs⟩ := DelayQ.pollExpired_expired hp h.wf
+    refine h.removeCore hen (by simpa using hwf) (by simpa using hs) ?_ (by simp [hv]) ?_
+    · intro c; simp only [abortExec_timers]; rw [hcs c, hk]
+    · exact (abortExec_ab { s with timers := q, inflight := s.inflight.filter (·.id != e.val) } en'.rid).sim
+  | rearmed q e en' s2 hp hf h0 hr =>
+    obtain ⟨en, hen, hk, hv, huniq, _⟩ := h.popped hp
+    have := huniq en' hf; subst this
+    exact h.rearm hp hen hk hv hr
+  | panicked q e en' hp hf h0 hr => exact h.of_sim rfl rfl (ExecsSim.refl _)
 
-/-- the expiry path aborts only executions whose deadline has passed (never early) — or whose timer
-was armed with the clamped timeout, which has run out -/
-theorem TInv.expire_ab {now : Nat} {born : Nat → Nat} {s : St} (h : TInv now born s) :
+theorem TInv.expire {now : Nat} {s : St} (h : TInv now s) : TInv now (pollExpired s now).1 :=
+  pollExpired_ind (P := TInv now) now (fun s1 h1 => h1.of_sim rfl rfl (ExecsSim.refl _))
+    (fun s1 h1 => h1.expireStep) s h
+
+/-- what one call of `poll_expired` may do to the executions: nothing but bookkeeping, or abort those of
+one request, whose deadline has passed -/
+def ExpAb (now : Nat) (l l' : List Exec) : Prop :=
+  ExecsAb none l l' ∨ ∃ r, ExecsAb (some r) l l' ∧ ∀ ex ∈ l, ex.rid = r → ex.deadline ≤ now
+
+/-- one iteration: a `continue` (re-arm) leaves the executions alone; an expiry aborts only executions
+whose deadline has passed — the timer that fired had nothing left to arm (`remainder = 0`), so its tick,
+which the clock has reached, is no earlier than the deadline -/
+theorem TInv.expireStep_ab {now : Nat} {s : St} (h : TInv now s) :
+    ExpAb now s.execs (Server.expireStep s now).1.execs ∧
+    ((Server.expireStep s now).2 = none → (Server.expireStep s now).1.execs = s.execs) := by
+  have hs := expireStep_shape s now
+  revert hs; generalize Server.expireStep s now = p; intro hs
+  obtain ⟨s', r⟩ := p
+  dsimp only at hs ⊢
+  cases hs with
+  | idleNone q hp => exact ⟨Or.inl (ExecsAb.refl _ _), fun h => by cases h⟩
+  | idlePending q hp => exact ⟨Or.inl (ExecsAb.refl _ _), fun h => by cases h⟩
+  | orphan q e hp hf => exact ⟨Or.inl (ExecsAb.refl _ _), fun h => by cases h⟩
+  | abort q e en' hp hf h0 =>
+    obtain ⟨en, hen, hk, hv, huniq, _⟩ := h.popped hp
+    have := huniq en' hf; subst this
+    obtain ⟨hcore, _⟩ := DelayQ.pollExpired_expired hp h.wf
+    refine ⟨Or.inr ⟨en'.rid, abortExec_ab _ en'.rid, fun ex hex hr => ?_⟩, fun h => by cases h⟩
+    have hne := DelayQ.pollExpired_not_early hp h.sound
+    have := (h.dl en' hen _ hcore hk.symm ex hex hr).1
+    rw [h0, Nat.add_zero] at this
+    exact Nat.le_trans this hne
+  | rearmed q e en' s2 hp hf h0 hr =>
+    have := (rearm_frame hr).execs
+    exact ⟨Or.inl (by rw [this]; exact ExecsAb.refl _ _), fun _ => this⟩
+  | panicked q e en' hp hf h0 hr => exact ⟨Or.inl (ExecsAb.refl _ _), fun h => by cases h⟩
+
+/-- **The expiry path aborts only executions whose deadline has passed (never early).** -/
+theorem TInv.expire_ab {now : Nat} {s : St} (h : TInv now s) :
     ExecsAb none s.execs (pollExpired s now).1.execs ∨
-    ∃ r, ExecsAb (some r) s.execs (pollExpired s now).1.execs ∧
-      ∀ ex ∈ s.execs, ex.rid = r → ex.deadline ≤ now ∨ Clamped (born ex.rid) ex.deadline now := by
+    ∃ r, ExecsAb (some r) s.execs (pollExpired s now).1.execs ∧ ∀ ex ∈ s.execs, ex.rid = r → ex.deadline ≤ now := by
+  have hloop : ∀ (fuel : Nat) (s : St), TInv now s → ExpAb now s.execs (pollExpiredLoop fuel s now).1.execs := by
+    intro fuel
+    induction fuel with
+    | zero => intro s _; exact Or.inl (ExecsAb.refl _ _)
+    | succ n ih =>
+      intro s h
+      rw [pollExpiredLoop_succ]
+      have h1 := h.expireStep_ab
+      have h2 := h.expireStep
+      revert h1 h2; generalize Server.expireStep s now = p; intro h1 h2
+      rcases p with ⟨s', r⟩
+      cases r with
+      | some r => exact h1.1
+      | none =>
+        dsimp only at h1 h2 ⊢
+        have := ih s' h2
+        rw [h1.2 rfl] at this
+        exact this
   unfold pollExpired
   split
   · exact Or.inl (ExecsAb.refl _ _)
-  · rcases hp : s.timers.pollExpired now with ⟨q, r⟩
-    cases r with
-    | expired e =>
-      simp only
-      split
-      · next en hf =>
-        obtain ⟨hen, hid⟩ := findEntry_some hf
-        obtain ⟨hcore, hcs⟩ := DelayQ.pollExpired_expired hp h.wf
-        obtain ⟨en0, hen0, hk, hv⟩ := h.bwd _ hcore
-        have : en = en0 := eq_of_map_nodup (·.id) h.ids hen hen0 (hid.trans hv.symm)
-        subst this
-        refine Or.inr ⟨en.rid, abortExec_ab _ en.rid, fun ex hex hr => ?_⟩
-        have hne := DelayQ.pollExpired_not_early hp h.sound
-        rcases (h.dl en hen0 _ hcore hk.symm ex hex hr).1 with this | this
-        · exact Or.inl (Nat.le_trans this hne)
-        · exact Or.inr (this.mono hne)
-      · exact Or.inl (ExecsAb.refl _ _)
-    | none => exact Or.inl (ExecsAb.refl _ _)
-    | pending => exact Or.inl (ExecsAb.refl _ _)
+  · exact hloop _ s h
 
 theorem ceilMs_ge (x : Nat) : x ≤ ceilMs x * nsPerMs := by
   unfold ceilMs nsPerMs; omega
 
-theorem TInv.start {now : Nat} {born : Nat → Nat} {s : St} (h : TInv now born s) (id d : Nat) (tr : Trace) (b : Nat) :
-    TInv now born (startRequest s now id d tr b).1 := by
+theorem TInv.start {now : Nat} {s : St} (h : TInv now s) (id d : Nat) (tr : Trace) (b : Nat) :
+    TInv now (startRequest s now id d tr b).1 := by
   unfold startRequest
   split
   · exact h
@@ -444,7 +576,7 @@ theorem TInv.start {now : Nat} {born : Nat → Nat} {s : St} (h : TInv now born 
     | panic => exact h.of_sim rfl rfl (ExecsSim.refl _)
     | ok key =>
       simp only
-      have hw : TInv now born (if w = true then wakeServer s else s) := by
+      have hw : TInv now (if w = true then wakeServer s else s) := by
         split
         · exact h.of_sim (wakeServer_inflight s) (wakeServer_timers s) (by rw [wakeServer_execs]; exact ExecsSim.refl _)
         · exact h
@@ -463,7 +595,7 @@ theorem TInv.start {now : Nat} {born : Nat → Nat} {s : St} (h : TInv now born 
       have hs := DelayQ.insert_Sound hi h.sound
       have hfresh : ∀ c ∈ s.timers.cores, c.1 ≠ key := fun c hc hck => by
         have := DelayQ.cores_key_lt h.wf hc; omega
-      refine ⟨hwf, hs, ?_, ?_, ?_, ?_, ?_, ?_, ?_⟩
+      refine ⟨hwf, hs, ?_, ?_, ?_, ?_, ?_, ?_⟩
       · simp only [List.map_append, List.map_cons, List.map_nil]
         rw [List.nodup_append]
         refine ⟨h.ids, by simp, ?_⟩
@@ -494,9 +626,6 @@ theorem TInv.start {now : Nat} {born : Nat → Nat} {s : St} (h : TInv now born 
         rcases List.mem_append.mp hex with hex | hex
         · have := h.execRid ex hex; omega
         · simp only [List.mem_singleton] at hex; subst hex; simp
-      · intro rid hrid
-        simp only [List.length_append, List.length_cons, List.length_nil] at hrid
-        exact h.fresh rid (by omega)
       · intro en hen c hc hk ex hex hr
         rcases List.mem_append.mp hen with hen | hen
         · -- an old entry: its timer is old, its execution is old
@@ -523,17 +652,16 @@ theorem TInv.start {now : Nat} {born : Nat → Nat} {s : St} (h : TInv now born 
             · have := h.execRid ex hex; omega
             · simp only [List.mem_singleton] at hex; subst hex; exact ⟨rfl, rfl, rfl⟩
           subst hcnew
-          rw [hexnew.1, hexnew.2.1, hexnew.2.2, h.fresh _ (Nat.le_refl _)]
+          rw [hexnew.1, hexnew.2.1]
           refine ⟨?_, rfl⟩
-          show d ≤ max (ceilMs (now + clampTimeout (d - now))) s.timers.wheelElapsed * nsPerMs ∨
-            Clamped now d (max (ceilMs (now + clampTimeout (d - now))) s.timers.wheelElapsed * nsPerMs)
+          show d ≤ max (ceilMs (now + clampTimeout (d - now))) s.timers.wheelElapsed * nsPerMs +
+            ((d - now) - clampTimeout (d - now))
           have h1 := ceilMs_ge (now + clampTimeout (d - now))
           have h2 : ceilMs (now + clampTimeout (d - now)) * nsPerMs ≤
               max (ceilMs (now + clampTimeout (d - now))) s.timers.wheelElapsed * nsPerMs :=
             Nat.mul_le_mul_right _ (Nat.le_max_left _ _)
-          rcases clampTimeout_cases (d - now) with hc | ⟨hne, hlt, hc⟩
-          · left; omega
-          · right; rw [hc] at h1 h2 ⊢; exact ⟨hne, by omega, by omega⟩
+          have h3 := clampTimeout_le_self (d - now)
+          omega
 
 theorem foldl_abort_sim (es : List SEntry) (s : St) :
     ExecsSim s.execs (es.foldl (fun s e => abortExec s e.rid) s).execs := by
@@ -546,7 +674,7 @@ theorem foldl_wake_sim (ws : List Nat) (s : St) : ExecsSim s.execs (ws.foldl wak
   | nil => exact ExecsSim.refl _
   | cons e es ih => exact ExecsSim.trans (wakeExec_ab s e).sim (ih _)
 
-theorem TInv.drop {now : Nat} {born : Nat → Nat} {s : St} (h : TInv now born s) : TInv now born (dropServer s) := by
+theorem TInv.drop {now : Nat} {s : St} (h : TInv now s) : TInv now (dropServer s) := by
   unfold dropServer
   split
   · exact h.of_sim rfl rfl (ExecsSim.refl _)
@@ -555,11 +683,10 @@ theorem TInv.drop {now : Nat} {born : Nat → Nat} {s : St} (h : TInv now born s
         { List.foldl (fun s e => abortExec s e.rid) { s with dropped := true, woken := false } s.inflight with rqWaiters := [] }
         (List.foldl (fun s e => abortExec s e.rid) { s with dropped := true, woken := false } s.inflight).rqWaiters).execs :=
       ExecsSim.trans (foldl_abort_sim s.inflight { s with dropped := true, woken := false }) (foldl_wake_sim _ _)
-    refine ⟨DelayQ.WF_empty, DelayQ.Sound_empty now, by simp, by simp, by simp [DelayQ.cores, DelayQ.items], by simp, ?_, ?_, by simp⟩
-    · intro ex' hex'
-      obtain ⟨ex, hex, hr, _, _⟩ := hsim.2 ex' hex'
-      rw [hsim.1, hr]; exact h.execRid ex hex
-    · rw [hsim.1]; exact h.fresh
+    refine ⟨DelayQ.WF_empty, DelayQ.Sound_empty now, by simp, by simp, by simp [DelayQ.cores, DelayQ.items], by simp, ?_, by simp⟩
+    intro ex' hex'
+    obtain ⟨ex, hex, hr, _, _⟩ := hsim.2 ex' hex'
+    rw [hsim.1, hr]; exact h.execRid ex hex
 
 /-! ### observation bookkeeping: what a step may add -/
 
@@ -626,16 +753,6 @@ theorem obsExt_dropServer {now : Nat} (s : St) : ObsExt now s (dropServer s) := 
     refine ObsExt.trans ?_ (ObsExt.of_eq rfl)
     exact ObsExt.trans (ObsExt.of_eq (s' := { s with dropped := true, woken := false }) rfl) (obsExt_foldl_abort _ _)
 
-theorem obsExt_pollExpired {t : Nat} (s : St) (now : Nat) : ObsExt t s (pollExpired s now).1 := by
-  unfold pollExpired; split
-  · exact ObsExt.refl _
-  · split
-    · simp only; split
-      · exact ObsExt.trans (ObsExt.of_eq rfl) (obsExt_abortExec _ _)
-      · exact ObsExt.of_eq rfl
-    · exact ObsExt.of_eq rfl
-    · exact ObsExt.of_eq rfl
-
 theorem obsExt_wakeServer {now : Nat} (s : St) : ObsExt now s (wakeServer s) := by
   unfold wakeServer; split
   · exact ObsExt.refl _
@@ -657,8 +774,30 @@ theorem obsExt_startRequest (s : St) (now id d : Nat) (tr : Trace) (b : Nat) :
       · exact ObsExt.trans (obsExt_wakeServer s) (ObsExt.of_eq rfl)
       · exact ObsExt.of_eq rfl
 
+theorem obsExt_pollExpired (s : St) (now : Nat) : ObsExt now s (pollExpired s now).1 := by
+  refine pollExpired_rel now ObsExt.refl (fun _ _ _ => ObsExt.trans)
+    (fun s1 => ObsExt.emit _ _ (by intro _ _ h; cases h)) (fun s1 => ?_) s
+  have hs := expireStep_shape s1 now
+  revert hs; generalize expireStep s1 now = p; intro hs
+  obtain ⟨s', r⟩ := p
+  dsimp only at hs ⊢
+  cases hs with
+  | idleNone q hp => exact ObsExt.of_eq rfl
+  | idlePending q hp => exact ObsExt.of_eq rfl
+  | orphan q e hp hf => exact ObsExt.of_eq rfl
+  | abort q e en hp hf h0 => exact ObsExt.trans (ObsExt.of_eq rfl) (obsExt_abortExec _ _)
+  | rearmed q e en s2 hp hf h0 hr =>
+    obtain ⟨q', key, w, _, rfl⟩ := rearm_some hr
+    cases w
+    · exact ObsExt.of_eq rfl
+    · exact ObsExt.trans (ObsExt.trans (ObsExt.of_eq (s' := { s1 with timers := q }) rfl) (obsExt_wakeServer _)) (ObsExt.of_eq rfl)
+  | panicked q e en hp hf h0 hr =>
+    refine ObsExt.trans (ObsExt.of_eq (s' := { s1 with poisoned := true }) rfl) (ObsExt.emit _ _ ?_)
+    intro _ _ h; cases h
+    exact ⟨rfl, fun hf' => insert_panic_late hf' q now en.remainder en.id (rearm_none hr)⟩
+
 /-- `removeRequest` never panics in a state satisfying the invariant -/
-theorem TInv.removeReq_obs {now : Nat} {born : Nat → Nat} {s : St} (h : TInv now born s) (id : Nat) :
+theorem TInv.removeReq_obs {now : Nat} {s : St} (h : TInv now s) (id : Nat) :
     ObsExt now s (removeRequest s id).1 ∧ (removeRequest s id).1.poisoned = s.poisoned := by
   unfold Server.removeRequest
   split
@@ -674,7 +813,7 @@ theorem TInv.removeReq_obs {now : Nat} {born : Nat → Nat} {s : St} (h : TInv n
         (obsExt_wakeServer _), by simp⟩
     · exact ⟨ObsExt.of_eq rfl, rfl⟩
 
-theorem TInv.obsExt_cancelReq {now : Nat} {born : Nat → Nat} {s : St} (h : TInv now born s) (id : Nat) : ObsExt now s (cancelRequest s id).1 := by
+theorem TInv.obsExt_cancelReq {now : Nat} {s : St} (h : TInv now s) (id : Nat) : ObsExt now s (cancelRequest s id).1 := by
   unfold cancelRequest; split
   · exact ObsExt.refl _
   · next e hf =>
@@ -734,13 +873,10 @@ theorem startRequest_execs_cases (s : St) (now id d : Nat) (tr : Trace) (b : Nat
 def cancelSeen (id : Nat) (obs : List Obs) : Prop := ∃ ep tr, Obs.tNext ep (.item (.cancel id tr)) ∈ obs
 
 /-- Why an execution may be found aborted (C06 "never early"): the model spun (and stopped
-recording), a `Cancel` for its id was read, the request stream was dropped, its deadline passed — or
-its timer was armed with the clamped timeout (deadline more than the clamp away when the request was
-read at `born rid`) and the clamp has run out. -/
-def AbortWhy (now : Nat) (born : Nat → Nat) (s : St) : Prop :=
+recording), a `Cancel` for its id was read, the request stream was dropped, or its deadline passed. -/
+def AbortWhy (now : Nat) (s : St) : Prop :=
   ∀ ex ∈ s.execs, ex.aborted = true →
     hasSpin s.obs = true ∨ cancelSeen ex.id s.obs ∨ s.dropped = true ∨ ex.deadline ≤ now
-      ∨ Clamped (born ex.rid) ex.deadline now
 
 /-- the only panic ever observed is the `DelayQueue` range panic, and not before `panicFreeNs` -/
 def OnlyInsertPanic (now : Nat) (s : St) : Prop := ∀ ep m, Obs.panic ep m ∈ s.obs → PanicOk now m
@@ -748,43 +884,33 @@ def OnlyInsertPanic (now : Nat) (s : St) : Prop := ∀ ep m, Obs.panic ep m ∈ 
 /-- The server invariant.  `w = true`: with the abort-reason clause (which reads the observations
 recorded in the state); `w = false`: without it — that form survives clearing the observations, as the
 event trace (`stepOp`) does after every op. -/
-structure SInv (w : Bool) (now : Nat) (born : Nat → Nat) (s : St) : Prop where
-  t : TInv now born s
-  why : w = true → AbortWhy now born s
+structure SInv (w : Bool) (now : Nat) (s : St) : Prop where
+  t : TInv now s
+  why : w = true → AbortWhy now s
   panics : OnlyInsertPanic now s
 
-theorem AbortWhy.redate {now : Nat} {born : Nat → Nat} {s : St} (h : AbortWhy now born s)
-    (hr : ∀ ex ∈ s.execs, ex.rid < s.execs.length) (t : Nat) : AbortWhy now (reborn born s.execs.length t) s := by
-  intro ex hex ha
-  have : reborn born s.execs.length t ex.rid = born ex.rid := by
-    unfold reborn; rw [if_pos (hr ex hex)]
-  rw [this]; exact h ex hex ha
-
-theorem SInv.mono {w : Bool} {now now' : Nat} {born : Nat → Nat} {s : St} (h : SInv w now born s) (hle : now ≤ now') :
-    SInv w now' (reborn born s.execs.length now') s :=
+theorem SInv.mono {w : Bool} {now now' : Nat} {s : St} (h : SInv w now s) (hle : now ≤ now') : SInv w now' s :=
   ⟨h.t.mono hle, fun hw ex hex ha => by
-    rcases (h.why hw).redate h.t.execRid now' ex hex ha with h1 | h1 | h1 | h1 | h1
+    rcases h.why hw ex hex ha with h1 | h1 | h1 | h1
     · exact Or.inl h1
     · exact Or.inr (Or.inl h1)
     · exact Or.inr (Or.inr (Or.inl h1))
-    · exact Or.inr (Or.inr (Or.inr (Or.inl (Nat.le_trans h1 hle))))
-    · exact Or.inr (Or.inr (Or.inr (Or.inr (h1.mono hle)))), fun ep m hm => (h.panics ep m hm).mono hle⟩
+    · exact Or.inr (Or.inr (Or.inr (Nat.le_trans h1 hle))), fun ep m hm => (h.panics ep m hm).mono hle⟩
 
 /-- the invariant without the abort-reason clause does not look at the recorded observations -/
-theorem SInv.clear_obs {w : Bool} {now : Nat} {born : Nat → Nat} {s : St} (h : SInv w now born s) :
-    SInv false now born { s with obs := [] } :=
+theorem SInv.clear_obs {w : Bool} {now : Nat} {s : St} (h : SInv w now s) :
+    SInv false now { s with obs := [] } :=
   ⟨h.t.of_sim rfl rfl (ExecsSim.refl _), (fun hw => by cases hw), (by intro ep m hm; cases hm)⟩
 
 /-- the generic step: the table invariant is re-established, observations only grow (benignly), and
 every newly aborted execution has a reason -/
-theorem SInv.step {w : Bool} {now : Nat} {born : Nat → Nat} {s s' : St} (h : SInv w now born s) (ht : TInv now born s') (hobs : ObsExt now s s')
+theorem SInv.step {w : Bool} {now : Nat} {s s' : St} (h : SInv w now s) (ht : TInv now s') (hobs : ObsExt now s s')
     (hdrop : s.dropped = true → s'.dropped = true) (r : Option Nat) (hab : ExecsAb r s.execs s'.execs)
     (hr : ∀ ex ∈ s.execs, r = some ex.rid →
-      hasSpin s'.obs = true ∨ cancelSeen ex.id s'.obs ∨ s'.dropped = true ∨ ex.deadline ≤ now
-        ∨ Clamped (born ex.rid) ex.deadline now) : SInv w now born s' := by
+      hasSpin s'.obs = true ∨ cancelSeen ex.id s'.obs ∨ s'.dropped = true ∨ ex.deadline ≤ now) : SInv w now s' := by
   refine ⟨ht, fun hw ex' hex' ha' => ?_, fun ep m hm => ?_⟩
   · obtain ⟨ex, hex, hrid, hid, hd, hab'⟩ := hab.2 ex' hex'
-    rw [hid, hd, hrid]
+    rw [hid, hd]
     rcases hab' ha' with ha | ha
     · rcases h.why hw ex hex ha with h1 | h1 | h1 | h1
       · exact Or.inl (hobs.hasSpin h1)
@@ -799,12 +925,12 @@ theorem SInv.step {w : Bool} {now : Nat} {born : Nat → Nat} {s s' : St} (h : S
     · exact p _ hm ep m rfl
     · exact h.panics ep m hm
 
-theorem TInv.timerWaker {now : Nat} {born : Nat → Nat} {s : St} (h : TInv now born s) (b : Bool) :
-    TInv now born { s with timers := { s.timers with waker := b } } :=
+theorem TInv.timerWaker {now : Nat} {s : St} (h : TInv now s) (b : Bool) :
+    TInv now { s with timers := { s.timers with waker := b } } :=
   ⟨⟨h.wf.nodup, h.wf.lt⟩, ⟨h.sound.lvl, h.sound.blk, h.sound.top, h.sound.exp, h.sound.el, h.sound.wn⟩,
-    h.ids, h.fwd, h.bwd, h.ridLt, h.execRid, h.fresh, h.dl⟩
+    h.ids, h.fwd, h.bwd, h.ridLt, h.execRid, h.dl⟩
 
-theorem sinv_closed (w : Bool) (now : Nat) (born : Nat → Nat) : PrimClosed now (SInv w now born) where
+theorem sinv_closed (w : Bool) (now : Nat) : PrimClosed now (SInv w now) where
   inert := fun s s' hi h =>
     h.step (h.t.of_sim hi.inflight hi.timers (by rw [hi.execs]; exact ExecsSim.refl _)) (ObsExt.of_eq hi.obs)
       (fun hd => by rw [hi.dropped]; exact hd) none (by rw [hi.execs]; exact ExecsAb.refl _ _)
@@ -823,7 +949,7 @@ theorem sinv_closed (w : Bool) (now : Nat) (born : Nat → Nat) : PrimClosed now
     h.step (h.t.removeReq id) (h.t.removeReq_obs id).1 (by simp) none
       (by rw [removeRequest_execs]; exact ExecsAb.refl _ _) (fun _ _ hr => by cases hr)
   cancel := fun s id tr h hnx => by
-    have h1 : SInv w now born (tNext s).1 :=
+    have h1 : SInv w now (tNext s).1 :=
       h.step (h.t.of_sim (by simp) (by simp) (by rw [tNext_execs]; exact ExecsSim.refl _)) (obsExt_tNext s)
         (by simp) none (by rw [tNext_execs]; exact ExecsAb.refl _ _) (fun _ _ hr => by cases hr)
     have hseen : cancelSeen id (cancelRequest (tNext s).1 id).1.obs :=
@@ -1009,34 +1135,132 @@ theorem dropServer_aborts_all (s : St) (hlive : (s.dropped || s.poisoned) = fals
   rw [hr2, hr1] at hr
   exact hs1 e0 he0 (by rw [hr]; exact List.mem_map.mpr ⟨en, hen, rfl⟩)
 
-/-- **Frame** of the expiry path: `pollExpired` either changes nothing in the table and the
-executions, or removes exactly the entries with the expired id and touches only executions with
-the rid of that entry. -/
-theorem pollExpired_touches (s : St) (now : Nat) :
-    ((pollExpired s now).1.inflight = s.inflight ∧ (pollExpired s now).1.execs = s.execs) ∨
-    ∃ (e : DqEntry) (en : SEntry), findEntry s e.val = some en ∧ (pollExpired s now).2 = .ready ∧
-      (pollExpired s now).1.inflight = s.inflight.filter (·.id != e.val) ∧
-      ∃ g, (pollExpired s now).1.execs = s.execs.map g ∧ AbortMap en.rid g := by
+/-- the part of a table entry that `poll_expired` never changes (a re-arm changes the timer key and the
+remainder) -/
+def _root_.TarpcModel.Server.SEntry.ir (e : SEntry) : Nat × Nat := (e.id, e.rid)
+
+theorem map_ir_rearmUpd (l : List SEntry) (id key : Nat) :
+    (l.map (rearmUpd id key)).map SEntry.ir = l.map SEntry.ir := by
+  rw [List.map_map]; apply List.map_congr_left; intro x _
+  simp [SEntry.ir]
+
+theorem findEntry_ir {s s' : St} (h : s'.inflight.map SEntry.ir = s.inflight.map SEntry.ir) (id : Nat) :
+    (findEntry s' id).map SEntry.ir = (findEntry s id).map SEntry.ir := by
+  unfold findEntry
+  generalize s'.inflight = l' at h
+  generalize s.inflight = l at h
+  induction l generalizing l' with
+  | nil => cases l' with
+    | nil => rfl
+    | cons a l' => simp at h
+  | cons b l ih =>
+    cases l' with
+    | nil => simp at h
+    | cons a l' =>
+      simp only [List.map_cons, List.cons.injEq] at h
+      have hid : a.id = b.id := congrArg Prod.fst h.1
+      simp only [List.find?_cons, hid]
+      split
+      · simp [h.1]
+      · exact ih l' h.2
+
+theorem filter_ir {l l' : List SEntry} (h : l'.map SEntry.ir = l.map SEntry.ir) (id : Nat) :
+    (l'.filter (·.id != id)).map SEntry.ir = (l.filter (·.id != id)).map SEntry.ir := by
+  induction l generalizing l' with
+  | nil => cases l' with
+    | nil => rfl
+    | cons a l' => simp at h
+  | cons b l ih =>
+    cases l' with
+    | nil => simp at h
+    | cons a l' =>
+      simp only [List.map_cons, List.cons.injEq] at h
+      have hid : a.id = b.id := congrArg Prod.fst h.1
+      simp only [List.filter_cons, hid]
+      split
+      · simp only [List.map_cons, h.1, ih h.2]
+      · exact ih h.2
+
+/-- what `poll_expired` does to the table (up to timer keys and remainders) and to the executions -/
+inductive ExpTouch (s : St) : St → ExpRes → Prop
+  | same (s' : St) (r : ExpRes) (hi : s'.inflight.map SEntry.ir = s.inflight.map SEntry.ir) (he : s'.execs = s.execs)
+      (hr : r ≠ .ready) : ExpTouch s s' r
+  | orphan (s' : St) (id : Nat) (hi : s'.inflight.map SEntry.ir = s.inflight.map SEntry.ir) (he : s'.execs = s.execs)
+      (hf : findEntry s id = none) : ExpTouch s s' .ready
+  | expired (s' : St) (id : Nat) (en : SEntry) (hf : findEntry s id = some en)
+      (hi : s'.inflight.map SEntry.ir = (s.inflight.filter (·.id != id)).map SEntry.ir)
+      (g : Exec → Exec) (he : s'.execs = s.execs.map g) (hg : AbortMap en.rid g) : ExpTouch s s' .ready
+
+theorem expireStep_touch (s : St) (now : Nat) :
+    match (expireStep s now).2 with
+    | some r => ExpTouch s (expireStep s now).1 r
+    | none => (expireStep s now).1.inflight.map SEntry.ir = s.inflight.map SEntry.ir ∧
+        (expireStep s now).1.execs = s.execs := by
+  have hs := expireStep_shape s now
+  revert hs; generalize expireStep s now = p; intro hs
+  obtain ⟨s', r⟩ := p
+  dsimp only at hs ⊢
+  cases hs with
+  | idleNone q hp => exact ExpTouch.same _ _ rfl rfl (by intro h; cases h)
+  | idlePending q hp => exact ExpTouch.same _ _ rfl rfl (by intro h; cases h)
+  | orphan q e hp hf => exact ExpTouch.orphan _ e.val rfl rfl hf
+  | abort q e en hp hf h0 =>
+    obtain ⟨g, hg, hm, _⟩ := abortExec_map { s with timers := q, inflight := s.inflight.filter (·.id != e.val) } en.rid
+    exact ExpTouch.expired _ e.val en hf (by simp) g hg hm
+  | rearmed q e en s2 hp hf h0 hr =>
+    obtain ⟨q', key, w, _, rfl⟩ := rearm_some hr
+    exact ⟨map_ir_rearmUpd _ _ _, by cases w <;> simp⟩
+  | panicked q e en hp hf h0 hr => exact ExpTouch.same _ _ rfl rfl (by intro h; cases h)
+
+/-- **Frame** of the expiry path: `pollExpired` either leaves the table (up to re-armed timer keys and
+remainders) and the executions alone, or it reports an expiration, removes exactly the entries with the
+expired id and touches only executions with the rid of that entry. -/
+theorem pollExpired_touches (s : St) (now : Nat) : ExpTouch s (pollExpired s now).1 (pollExpired s now).2 := by
+  have hloop : ∀ (fuel : Nat) (s1 : St), s1.inflight.map SEntry.ir = s.inflight.map SEntry.ir → s1.execs = s.execs →
+      ExpTouch s (pollExpiredLoop fuel s1 now).1 (pollExpiredLoop fuel s1 now).2 := by
+    intro fuel
+    induction fuel with
+    | zero => intro s1 hi he; exact ExpTouch.same _ _ hi he (by intro h; cases h)
+    | succ n ih =>
+      intro s1 hi he
+      rw [pollExpiredLoop_succ]
+      have h1 := expireStep_touch s1 now
+      revert h1; generalize expireStep s1 now = p; intro h1
+      rcases p with ⟨s', r⟩
+      cases r with
+      | none =>
+        dsimp only at h1 ⊢
+        exact ih s' (h1.1.trans hi) (h1.2.trans he)
+      | some r =>
+        dsimp only at h1 ⊢
+        cases h1 with
+        | same _ hi' he' hr => exact ExpTouch.same _ _ (hi'.trans hi) (he'.trans he) hr
+        | orphan id hi' he' hf =>
+          refine ExpTouch.orphan _ id (hi'.trans hi) (he'.trans he) ?_
+          have := findEntry_ir hi id
+          rw [hf] at this
+          cases hfe : findEntry s id with
+          | none => rfl
+          | some x => rw [hfe] at this; cases this
+        | expired id en hf hi' g he' hg =>
+          have := findEntry_ir hi id
+          rw [hf] at this
+          cases hfe : findEntry s id with
+          | none => rw [hfe] at this; cases this
+          | some en0 =>
+            rw [hfe] at this
+            have hrid : en.rid = en0.rid := congrArg Prod.snd (Option.some.inj this)
+            refine ExpTouch.expired _ id en0 hfe (hi'.trans (filter_ir hi id)) g (by rw [he', he]) (hrid ▸ hg)
   unfold pollExpired
   split
-  · exact Or.inl ⟨rfl, rfl⟩
-  · split
-    · next q e heq =>
-      simp only
-      split
-      · next en hf =>
-        refine Or.inr ⟨e, en, hf, rfl, by simp, ?_⟩
-        obtain ⟨g, hg, hm, _⟩ := abortExec_map { s with inflight := s.inflight.filter (·.id != e.val), timers := q } en.rid
-        exact ⟨g, hg, hm⟩
-      · exact Or.inl ⟨rfl, rfl⟩
-    · exact Or.inl ⟨rfl, rfl⟩
-    · exact Or.inl ⟨rfl, rfl⟩
+  · exact ExpTouch.same _ _ rfl rfl (by intro h; cases h)
+  · exact hloop _ s rfl rfl
 
 /-! ### reachable states -/
 
 theorem sinv_init (w : Bool) (limit : Option Nat) (respCap tcap : Nat) (coupled : Bool) :
-    SInv w 0 (fun _ => 0) (init 0 limit respCap tcap coupled) := by
-  refine ⟨⟨DelayQ.WF_empty, DelayQ.Sound_empty 0, ?_, ?_, ?_, ?_, ?_, ?_, ?_⟩, ?_, ?_⟩
+    SInv w 0 (init 0 limit respCap tcap coupled) := by
+  refine ⟨⟨DelayQ.WF_empty, DelayQ.Sound_empty 0, ?_, ?_, ?_, ?_, ?_, ?_⟩, ?_, ?_⟩
   all_goals simp [init, AbortWhy, OnlyInsertPanic, DelayQ.cores, DelayQ.items]
 
 /-- the virtual time an op advances the clock by -/
@@ -1062,77 +1286,21 @@ theorem advSum_append (l1 l2 : List SOp) : advSum (l1 ++ l2) = advSum l1 + advSu
   | nil => simp [advSum]
   | cons op l1 ih => simp only [List.cons_append, advSum, ih]; omega
 
-theorem onAdvance_execs (s : St) (n : Nat) : (onAdvance s n).execs = s.execs := by
-  unfold onAdvance; repeat' split
-  all_goals first | rfl | simp
-
-/-- **Execution `rid` was created by the op that follows the prefix `ops1` of the script, at clock
-`t0`**: before that op the execution list was too short to contain it, after it it is not.
-(Executions are created by `start_request` only, i.e. when a poll of the request stream reads the
-request from the transport; `t0` is the clock of that poll, which the deadline timer is armed
-relative to.) -/
-def StartedAt (c0 : Sys) (ops : List SOp) (rid t0 : Nat) : Prop :=
-  ∃ ops1 op ops2, ops = ops1 ++ op :: ops2 ∧
-    (ops1.foldl applyOp c0).s.execs.length ≤ rid ∧
-    rid < (applyOp (ops1.foldl applyOp c0) op).s.execs.length ∧
-    (ops1.foldl applyOp c0).now = t0
-
-theorem StartedAt.cons {c0 : Sys} {op : SOp} {ops : List SOp} {rid t0 : Nat}
-    (h : StartedAt (applyOp c0 op) ops rid t0) : StartedAt c0 (op :: ops) rid t0 := by
-  obtain ⟨ops1, op', ops2, he, h1, h2, h3⟩ := h
-  exact ⟨op :: ops1, op', ops2, by rw [he]; rfl, h1, h2, h3⟩
-
-/-- one op: the invariant is kept, with the creation clocks of the existing executions unchanged and
-those of the executions the op creates set to the clock before the op -/
-theorem sinv_applyOp {w : Bool} {born : Nat → Nat} (c : Sys) (op : SOp) (h : SInv w c.now born c.s) :
-    ∃ born', SInv w (applyOp c op).now born' (applyOp c op).s ∧
-      (∀ rid, rid < c.s.execs.length → born' rid = born rid) ∧
-      (∀ rid, c.s.execs.length ≤ rid → rid < (applyOp c op).s.execs.length → born' rid = c.now) := by
+/-- one op keeps the invariant (at the clock the op leaves) -/
+theorem sinv_applyOp {w : Bool} (c : Sys) (op : SOp) (h : SInv w c.now c.s) :
+    SInv w (applyOp c op).now (applyOp c op).s := by
   by_cases hop : ∃ n, op = .advance n
   · obtain ⟨n, rfl⟩ := hop
-    refine ⟨reborn born c.s.execs.length (c.now + n), ?_, ?_, ?_⟩
-    · exact (sinv_closed w _ _).onAdvance _ _ (h.mono (Nat.le_add_right _ _))
-    · intro rid hr; unfold reborn; rw [if_pos hr]
-    · intro rid h1 h2
-      simp only [applyOp, onAdvance_execs] at h2
-      omega
+    exact (sinv_closed w _).onAdvance _ _ (h.mono (Nat.le_add_right _ _))
   · have hnow : (applyOp c op).now = c.now := by
       cases op <;> first | rfl | exact absurd ⟨_, rfl⟩ hop
-    refine ⟨born, ?_, fun _ _ => rfl, fun rid h1 _ => h.t.fresh rid h1⟩
     rw [hnow]
-    exact (sinv_closed w c.now born).applyOp c op h (fun n hn => hop ⟨n, hn⟩)
-
-/-- **Reachable states, with the creation clocks tied to the script.** -/
-theorem sinv_reach_from {w : Bool} (ops : List SOp) : ∀ (c0 : Sys) (born0 : Nat → Nat), SInv w c0.now born0 c0.s →
-    ∃ born, SInv w (ops.foldl applyOp c0).now born (ops.foldl applyOp c0).s ∧
-      ∀ rid, rid < (ops.foldl applyOp c0).s.execs.length →
-        (rid < c0.s.execs.length ∧ born rid = born0 rid) ∨ StartedAt c0 ops rid (born rid) := by
-  induction ops with
-  | nil => intro c0 born0 h; exact ⟨born0, h, fun rid hr => Or.inl ⟨hr, rfl⟩⟩
-  | cons op ops ih =>
-    intro c0 born0 h
-    obtain ⟨born1, h1, hold, hnew⟩ := sinv_applyOp c0 op h
-    obtain ⟨born, hb, hlink⟩ := ih (applyOp c0 op) born1 h1
-    refine ⟨born, hb, fun rid hr => ?_⟩
-    rcases hlink rid hr with ⟨hlt, heq⟩ | hs
-    · by_cases h0 : rid < c0.s.execs.length
-      · exact Or.inl ⟨h0, heq.trans (hold rid h0)⟩
-      · right
-        refine ⟨[], op, ops, rfl, by simpa using h0, hlt, ?_⟩
-        rw [heq, hnew rid (by omega) hlt]; rfl
-    · exact Or.inr hs.cons
+    exact (sinv_closed w c.now).applyOp c op h (fun n hn => hop ⟨n, hn⟩)
 
 theorem sinv_reach (w : Bool) (limit : Option Nat) (respCap tcap : Nat) (coupled : Bool) (ops : List SOp) :
-    ∃ born, SInv w (ops.foldl applyOp (initSys limit respCap tcap coupled)).now born
-        (ops.foldl applyOp (initSys limit respCap tcap coupled)).s ∧
-      ∀ rid, rid < (ops.foldl applyOp (initSys limit respCap tcap coupled)).s.execs.length →
-        StartedAt (initSys limit respCap tcap coupled) ops rid (born rid) := by
-  obtain ⟨born, h, hl⟩ := sinv_reach_from ops (initSys limit respCap tcap coupled) (fun _ => 0)
-    (sinv_init w limit respCap tcap coupled)
-  refine ⟨born, h, fun rid hr => ?_⟩
-  rcases hl rid hr with ⟨h0, _⟩ | h1
-  · exact absurd h0 (Nat.not_lt_zero _)
-  · exact h1
+    SInv w (ops.foldl applyOp (initSys limit respCap tcap coupled)).now
+      (ops.foldl applyOp (initSys limit respCap tcap coupled)).s :=
+  reach_inv (SInv w) (sinv_closed w) (fun _ _ _ hle h => h.mono hle) _ (sinv_init w limit respCap tcap coupled) ops
 
 theorem init_cfg (limit : Option Nat) (respCap tcap : Nat) (coupled : Bool) :
     (initSys limit respCap tcap coupled).s.throttleAfterRead = false ∧
@@ -1202,18 +1370,29 @@ theorem basePollNext_idle (now : Nat) : ∀ (fuel : Nat) (s : St),
       simp only at h hb
       exact ⟨_, hb (by rcases h with h | h <;> simp [h])⟩
 
+/-- when `poll_expired` reports no expiration, the queue was empty, or the last iteration of its loop —
+from a state `s2` reached by re-arming timers — found nothing due (or its `insert` panicked) -/
 theorem pollExpired_not_ready {s : St} {now : Nat} (h : (pollExpired s now).2 ≠ .ready) :
-    s.timers.isEmpty = true ∨ ∀ e, (s.timers.pollExpired now).2 ≠ .expired e := by
-  unfold pollExpired at h
-  split at h
-  · next he => exact Or.inl he
-  · refine Or.inr (fun e he => ?_)
-    rcases hp : s.timers.pollExpired now with ⟨q, r⟩
-    rw [hp] at h he
-    simp only at he
-    subst he
-    simp only at h
-    split at h <;> exact h rfl
+    s.timers.isEmpty = true ∨ ∃ s2, (pollExpired s now).1 = (expireStep s2 now).1 ∧
+      ((∀ e, (s2.timers.pollExpired now).2 ≠ .expired e) ∨ (expireStep s2 now).1.poisoned = true) := by
+  cases he : s.timers.isEmpty with
+  | true => exact Or.inl rfl
+  | false =>
+    right
+    obtain ⟨s2, r, hr, heq⟩ := pollExpired_last s now he
+    rw [heq] at h ⊢
+    refine ⟨s2, rfl, ?_⟩
+    have hs := expireStep_shape s2 now
+    revert hs hr; generalize expireStep s2 now = p; intro hr hs
+    obtain ⟨s', r'⟩ := p
+    dsimp only at hs hr h ⊢
+    subst hr
+    cases hs with
+    | idleNone q hp => left; intro e; rw [hp]; simp
+    | idlePending q hp => left; intro e; rw [hp]; simp
+    | orphan q e hp hf => exact absurd rfl h
+    | abort q e en hp hf h0 => exact absurd rfl h
+    | panicked q e en hp hf h0 hr => right; simp
 
 /-! ### a finished request stream has been dropped -/
 
